@@ -706,8 +706,8 @@ int main(int argc, char **argv) {
         if (!bd.ellipsoid) {
           if (!(fabsl((LD)g.m - e.mass) <= 8 * EPS * e.np * e.msum)) R.violation("sphere/mass", "CG mass differs from the sum of the parent masses", wit((long)k).d("got", g.m).d("want", (double)e.mass));
         } else {
-          // DESIGN.md: ellipsoidal beads are judged for position/velocity/force only; observation:
-          if (!(fabsl((LD)g.m - e.mass) <= 8 * EPS * e.np * e.msum)) R.counter("observed_only_ellipsoid_mass_not_sum_of_parents");
+          // own key: the statement's "its mass the sum of the parent masses" covers every CG bead
+          if (!(fabsl((LD)g.m - e.mass) <= 8 * EPS * e.np * e.msum)) R.violation("ellipsoid/mass", "mass of an ellipsoidal CG bead differs from the sum of the parent masses", wit((long)k).d("got", g.m).d("want", (double)e.mass));
         }
         bool zero_w = false;
         for (double w : bd.w) if (w == 0) zero_w = true;
